@@ -42,6 +42,8 @@ func main() {
 			os.Exit(2)
 		}
 		fmt.Printf("%d functions written to %s\n", len(p.Snapshot()), filepath.Join(*verif, "funcs.json"))
+		_ = report.WriteJSON(filepath.Join(*verif, "fields.json"), p.FieldSnapshot())
+		fmt.Printf("%d fields written to %s\n", len(p.FieldSnapshot()), filepath.Join(*verif, "fields.json"))
 		_ = report.WriteJSON(filepath.Join(*verif, "types.json"), p.TypeSnapshot())
 		fmt.Printf("%d types written to %s\n", len(p.TypeSnapshot()), filepath.Join(*verif, "types.json"))
 		if tabs, err := tab.ExtractTables(p); err == nil {
